@@ -717,6 +717,13 @@ func (dsc *dataStoreCommand) changeBits(destKeyName string, srcKeyNames []string
 		}
 	}
 
+	if len(resultBytes) == 0 {
+		// an empty result deletes the destination instead of storing an empty string
+		dsc.ds.data.remove(destKeyName)
+		output.data = respInt(0)
+		return
+	}
+
 	newSk := dsc.ds.newStoreKeyUnlocked(destKeyName)
 	newSk.flags = FLAG_KEY_TYPE_STRING
 	newSk.expiresAt = maxTime
